@@ -722,3 +722,71 @@ def replay(path):
     for m in out.mismatches:
         print("mismatch:", m["what"])
     return 1 if (out.oracle_violations or out.mismatches) else 0
+
+
+# ---------------------------------------------------------------------------------------------
+# self-test of the machinery:  cd /verif && python3 -m props.c11
+# the oracle must flag hand-perturbed observations, case_ok must reject a perturbed expectation
+# ---------------------------------------------------------------------------------------------
+def _coq_accepts(c, o):
+    t = coq_case(c, o)
+    v = ("From Coq Require Import ZArith List. Import ListNotations.\nFrom Osmo Require Import Base.Obs C11.Model C11.Corr.\nOpen Scope Z_scope.\n"
+         "Definition cases : list case := [\n %s ].\nDefinition M := Eval vm_compute in mismatches case_ok cases.\nPrint M.\n" % t)
+    rc, out = common.coq_eval("C11_selftest", v)
+    mm = common.parse_nat_list(out)
+    assert rc == 0 and mm is not None, out[-400:]
+    return mm == []
+
+
+def selftest():
+    import copy
+    U = DEFAULT_UNB
+    ops = [{"k": "lock", "o": 0, "d": 0, "amt": "1000000", "dur": U}, {"k": "lock", "o": 1, "d": 0, "amt": "2500000", "dur": U},
+           {"k": "sfdel", "o": 0, "id": 1, "v": 0}, {"k": "sfdel", "o": 1, "id": 2, "v": 0},
+           {"k": "epoch", "mode": "direct", "mults": [str(3 * P18 // 2)]},
+           {"k": "sfundel", "o": 1, "id": 2}, {"k": "topup", "o": 0, "id": 1, "amt": "777"}, {"k": "adv", "dt": 3600 * SEC}]
+    c = {"nval": 2, "denoms": [{"kind": "gamm", "mult": "20", "sf": True}], "rf": "0.5", "unb": 0, "vtok": [], "force": [], "ops": ops}
+    binary = common.go_build("c11drv", test=True)
+    o = common.run_driver(binary, [c], args="-test.run ^TestDriver$")[0]
+    nd, nv = 1, 2
+    res = []
+    res.append(("clean observation: oracle silent", oracle(c, o) == []))
+    res.append(("clean observation: case_ok accepts", _coq_accepts(c, o)))
+    base = 6 + 3 * nd + 2 * nv          # first account block; fields: exists, shares, tokens, expected, stk, ustk, bal
+
+    def perturbed(row, idx, delta=1):
+        p = copy.deepcopy(o)
+        p["flat"][row][idx] = str(int(p["flat"][row][idx]) + delta)
+        return p
+    kinds = lambda p: sorted(set(v["rec"]["kind"] for v in oracle(c, p)))
+    # 1. delegation right after the refresh (row 5) one unit off
+    p = perturbed(5, base + 2)
+    res.append(("delegation +1 after refresh -> oracle refresh_exact", "refresh_exact" in kinds(p)))
+    res.append(("delegation +1 after refresh -> case_ok rejects", not _coq_accepts(c, p)))
+    # 2. delegation far off between epochs (row 7)
+    res.append(("delegation +9 between epochs -> oracle drift", "drift" in kinds(perturbed(7, base + 2, 9))))
+    # 3. supply moved
+    res.append(("supply +1 -> oracle supply", {"supply_neutral", "supply_query"} & set(kinds(perturbed(6, 3))) != set()))
+    # 4. accumulator off
+    res.append(("accumulator +1 -> oracle accumulator", "accumulator" in kinds(perturbed(4, base + 4))))
+    # 5. synthetic lock of lock 2 (unstaking after row 6): end time one second late; connection section sits after the accounts
+    r6 = parse_row(o["flat"][6], nd, nv)
+    pos = base + 7 * nd * nv + 1 + 3 * len(r6["conns"]) + 1
+    idx = [j for j, s_ in enumerate(r6["synths"]) if s_[1] == 1][0]
+    res.append(("unstaking marker end +1s -> oracle marker_undelegating", "marker_undelegating" in kinds(perturbed(6, pos + 6 * idx + 4, SEC))))
+    # 6. the delegated lock 1 shown as unlocking in row 4
+    r4 = parse_row(o["flat"][4], nd, nv)
+    posl = base + 7 * nd * nv + 1 + 3 * len(r4["conns"]) + 1 + 6 * len(r4["synths"]) + 1
+    res.append(("delegated lock unlocking -> oracle", "unlocking_while_delegated" in kinds(perturbed(4, posl + 5, 12345))))
+    # 7. a staking marker turned into an unstaking one
+    res.append(("staking marker kind flipped -> oracle marker", "marker_delegated" in kinds(perturbed(4, base + 7 * nd * nv + 1 + 3 * len(r4["conns"]) + 1 + 1))))
+    ok = True
+    for name, good in res:
+        print("%-70s %s" % (name, "ok" if good else "FAILED"))
+        ok = ok and good
+    return 0 if ok else 1
+
+
+if __name__ == "__main__":
+    import sys
+    sys.exit(selftest())
